@@ -2078,7 +2078,7 @@ class IMAPClientCommand:
     def _p_string(self) -> str:
         """A string is either a 'quoted string' or a 'literal string'"""
         try:
-            return self._p_re(_quoted_re)[1:-1]
+            return re.sub(r'\\(["\\])', r"\1", self._p_re(_quoted_re)[1:-1])
         except NoMatch:
             pass
 
